@@ -149,6 +149,12 @@ def schema_bigenum():
     return s
 
 
+def schema_wkimp():
+    """a direct import of a well-known file that no field uses (as with rpc signatures or local option extensions)."""
+    return ('syntax = "proto3";\noption go_package = "%s/wkimp";\npackage wkimp;\nimport "google/protobuf/empty.proto";\nimport "pico.proto";\n'
+            'message Ping { int32 seq = 1; bytes body = 2; }\n' % PKG_ROOT)
+
+
 def random_schema(pkg, rnd):
     """A schema drawn from the grammar: kind x label x option x oneof membership x numbering x order x nesting."""
     nmsg = rnd.randint(2, 4)
@@ -231,7 +237,7 @@ BOUNDARY = {
 
 def fixed_schemas():
     return {"allmaps": schema_allmaps(), "recur": schema_recur(), "presence": schema_presence(), "order": schema_order(), "casts": schema_casts(),
-            "capone": schema_capone(), "bigenum": schema_bigenum()}
+            "capone": schema_capone(), "bigenum": schema_bigenum(), "wkimp": schema_wkimp()}
 
 
 def build(schemas, tag="fresh"):
